@@ -57,8 +57,8 @@ type Conn struct {
 	started   bool
 
 	// observations
-	Writes          [][]byte // one entry per Write call, in order
-	WriteSeq        []uint64 // global sequence number of each Write call (order across connections)
+	Writes          [][]byte        // one entry per Write call, in order
+	WriteSeq        []uint64        // global sequence number of each Write call (order across connections)
 	WriteAt         []time.Duration // virtual time of each Write call
 	Events          []api.ConnectionEvent
 	CloseEvent      api.ConnectionEvent
@@ -67,6 +67,8 @@ type Conn struct {
 	// client side
 	IsClient     bool
 	Outcome      ConnectOutcome
+	PreWrite     func(c *Conn) // called at the start of every Write
+	broken       bool
 	connected    bool
 	connectN     int
 	OnWrite      func(c *Conn, b []byte) // optional hook called after each recorded write
@@ -142,8 +144,32 @@ func (c *Conn) ID() uint64 { return c.id }
 
 func (c *Conn) Start(lctx context.Context) { c.started = true }
 
+// BreakPipe models the peer having closed while the local side has not noticed yet: from now on
+// writes fail; the close event itself arrives with DeliverBroken (the read loop meeting EOF).
+func (c *Conn) BreakPipe() bool {
+	if !atomic.CompareAndSwapUint32(&c.closed, 0, 1) {
+		return false
+	}
+	c.broken = true
+	return true
+}
+
+// DeliverBroken delivers the RemoteClose event of a connection broken by BreakPipe.
+func (c *Conn) DeliverBroken() {
+	vrt.PointAtomic()
+	if !c.broken {
+		return
+	}
+	c.broken = false
+	c.CloseEvent = api.RemoteClose
+	c.OnConnectionEvent(api.RemoteClose)
+}
+
 func (c *Conn) Write(bufs ...buffer.IoBuffer) (err error) {
 	vrt.PointAtomic()
+	if c.PreWrite != nil {
+		c.PreWrite(c)
+	}
 	if fs := c.fm.OnWrite(bufs); fs == api.Stop {
 		return nil
 	}
